@@ -19,6 +19,8 @@ import random
 import re
 import uuid
 
+import utype
+
 from .. import tlc
 from ..core import Check, MachineryError
 
@@ -248,14 +250,14 @@ def main():
     ck.count("orig_variant_refuted_by_TLC")
     from utype import JSONEncoder
     records, n = [], 0
-    for ci in range(600 if thorough else 90):
+    for ci in range(2500 if thorough else 90):
         anns = [rng.choice(FIELD_TYPES) for _ in range(rng.randint(1, 4))]
         ns = {}
         exec(PRELUDE, ns)
         src = "class T(Schema):\n" + "".join("    f%d: %s\n" % (i, a) for i, a in enumerate(anns))
         exec(src, ns)
         T = ns["T"]
-        for _ in range(12 if thorough else 8):
+        for _ in range(16 if thorough else 8):
             vals = {"f%d" % i: gen_value(rng, a, ns) for i, a in enumerate(anns)}
             try:
                 inst = T(**vals)
@@ -290,8 +292,26 @@ def main():
                     r["decoded"], r["exc"] = False, type(e).__name__ + ": " + str(e)[:80]
             records.append({"id": "c14-%d" % n, "r": r, "forms": [f for f in forms if f["kind"] in ("datetime", "time", "timedelta", "decimal", "date")],
                             "types": anns, "text": text[:300]})
+    # attribute-based data classes (DataClass, @utype.dataclass): the statement says "every data-class instance"; fixed witnesses
+    ns = {}
+    exec(PRELUDE + "from utype import DataClass\nclass WA(DataClass):\n    n: int\n    when: Optional[date] = None\n"
+                   "@utype.dataclass\nclass WB:\n    n: int\n    when: Optional[date] = None\n", ns)
+    for wname in ("WA", "WB"):
+        inst = ns[wname](n=3, when=datetime.date(2020, 1, 2))
+        n += 1
+        r = {"encoded": True, "stdjson": True, "decoded": True, "cin": "W{n:N3,when:T2020-01-02}", "cout": "", "exc": ""}
+        text = ""
+        try:
+            text = json.dumps(inst, cls=JSONEncoder)
+            back = utype.type_transform(text, ns[wname]) if False else ns[wname].__from__(text) if hasattr(ns[wname], "__from__") else None
+            r["cout"] = "W{n:%s,when:%s}" % (canon(getattr(back, "n", None)), canon(getattr(back, "when", None)))
+        except Exception as e:
+            r["encoded"], r["exc"] = bool(text), type(e).__name__ + ": " + str(e)[:60]
+            r["decoded"] = False
+        records.append({"id": "c14-%d" % n, "r": r, "forms": [], "types": ["int", "Optional[date]"], "text": text[:300],
+                        "witness": "attribute-based-data-class"})
     byid = {x["id"]: x for x in records}
-    res = tlc.judge("Trace_Codec", "Trace_Codec.cfg", [{k: v for k, v in x.items() if k != "text"} for x in records], workers=8)
+    res = tlc.judge("Trace_Codec", "Trace_Codec.cfg", [{k: v for k, v in x.items() if k not in ("text", "witness")} for x in records], workers=8)
     ck.mc(res, "Trace")
     if res.distinct != len(records):
         raise MachineryError("trace acceptance: TLC visited %d states, expected %d" % (res.distinct, len(records)))
@@ -304,7 +324,7 @@ def main():
         x = byid[t[1]]
         cause = t[2]
         feat = sorted({"%s/%s" % (f["kind"], "offset" + f["form"]["offset"] if f["kind"] == "datetime" else f["form"]["lex"]) for f in x["forms"]})
-        key = "C14|%s|%s" % (cause, "+".join(sorted(set(x["types"]))))
+        key = "C14|%s|%s" % (cause, x.get("witness") or "+".join(sorted(set(x["types"]))))
         ck.violation(key, cause, x)
     dv = res.tagged("DIV")
     if dv:
